@@ -43,15 +43,22 @@ impl Rng {
         Self { s, bytes: None }
     }
 
-    fn take_bytes(&mut self, k: usize) -> u64 {
+    /// Reads k decision bytes; once the input is exhausted the generator falls back to the
+    /// pseudo-random stream seeded from the whole input (so loops that wait for a fresh value end).
+    fn take_bytes(&mut self, k: usize) -> Option<u64> {
         let (data, pos) = self.bytes.as_mut().expect("bytes mode");
+        if *pos + k > data.len() {
+            let seed = fnv(data);
+            self.bytes = None;
+            *self = Self::new(seed);
+            return None;
+        }
         let mut v = 0u64;
         for i in 0..k {
-            let b = data.get(*pos + i).copied().unwrap_or(0);
-            v |= u64::from(b) << (8 * i);
+            v |= u64::from(data[*pos + i]) << (8 * i);
         }
         *pos += k;
-        v
+        Some(v)
     }
 
     /// Independent stream for (seed, stream name, index).
@@ -67,9 +74,16 @@ impl Rng {
         Self::new(splitmix(&mut y))
     }
 
+    /// true while decisions are read from fuzz bytes
+    pub fn is_bytes_mode(&self) -> bool {
+        self.bytes.is_some()
+    }
+
     pub fn next_u64(&mut self) -> u64 {
         if self.bytes.is_some() {
-            return self.take_bytes(8);
+            if let Some(v) = self.take_bytes(8) {
+                return v;
+            }
         }
         let r = self.s[1].wrapping_mul(5).rotate_left(7).wrapping_mul(9);
         let t = self.s[1] << 17;
@@ -87,7 +101,9 @@ impl Rng {
         debug_assert!(n > 0);
         if self.bytes.is_some() {
             let k = if n <= 256 { 1 } else if n <= 65_536 { 2 } else { 8 };
-            return self.take_bytes(k) % n;
+            if let Some(v) = self.take_bytes(k) {
+                return v % n;
+            }
         }
         // multiply-shift; bias is irrelevant here
         ((u128::from(self.next_u64()) * u128::from(n)) >> 64) as u64
